@@ -26,9 +26,9 @@
 #include <cmath>
 #include <cstdio>
 #include <cstdlib>
+#include <cstring>
 #if defined(XALAN_WINDOWS)
 #include <clocale>
-#include <cstring>
 #endif
 
 
@@ -1384,6 +1384,67 @@ static const char* const    thePrintfStrings[] =
 
 
 
+// Formats a value whose decimal exponent is negative with 18 significant
+// digits ("%.17e", enough for any double to read back exactly) and expands
+// the exponent form into the XPath form "[-]0.000ddd" in theBuffer, which
+// must hold MAX_FLOAT_CHARACTERS characters: a sign, "0.", at most 323
+// zeros (4.9e-324 is the smallest double), 18 digits and the null.  Returns the number
+// of characters written, or 0, leaving theBuffer alone, when the exponent
+// printed is not negative.
+static int
+formatSmallNumber(
+            double  theValue,
+            char*   theBuffer)
+{
+    using std::sprintf;
+    using std::strchr;
+    using std::atoi;
+    using std::isdigit;
+
+    // [-]d.ddddddddddddddddde-XXX
+    char    theScientific[32];
+
+    sprintf(theScientific, "%.17e", theValue);
+
+    const char*         theCurrent = theScientific;
+    const char* const   theExponentMark = strchr(theScientific, 'e');
+
+    if (theExponentMark == 0 || theExponentMark[1] != '-')
+    {
+        return 0;
+    }
+
+    char*   theOutput = theBuffer;
+
+    if (*theCurrent == '-')
+    {
+        *theOutput++ = *theCurrent++;
+    }
+
+    *theOutput++ = '0';
+    *theOutput++ = '.';
+
+    for (int theZeros = atoi(theExponentMark + 2) - 1; theZeros > 0; --theZeros)
+    {
+        *theOutput++ = '0';
+    }
+
+    for (; theCurrent != theExponentMark; ++theCurrent)
+    {
+        // Skip the decimal point, whatever the locale makes it.
+        if (isdigit(*theCurrent))
+        {
+            *theOutput++ = *theCurrent;
+        }
+    }
+
+    *theOutput = 0;
+
+    return int(theOutput - theBuffer);
+}
+
+
+
 XALAN_PLATFORMSUPPORT_EXPORT_FUNCTION(XalanDOMString&)
 PointerToDOMString(
             const void*         theValue,
@@ -1463,6 +1524,18 @@ DOMStringHelper::NumberToCharacters(
             ++thePrintfString;
         }
         while(atof(theBuffer) != theValue && *thePrintfString != 0);
+
+        // Even the largest precision does not read back for numbers
+        // below about 1e-19: take the significant digits instead.
+        if (atof(theBuffer) != theValue)
+        {
+            const int   theSmallNumberLength = formatSmallNumber(theValue, theBuffer);
+
+            if (theSmallNumberLength != 0)
+            {
+                theCharsWritten = theSmallNumberLength;
+            }
+        }
 
         // First, cleanup the output to conform to the XPath standard,
         // which says no trailing '0's for the decimal portion.
@@ -1763,6 +1836,18 @@ NumberToDOMString(
             ++thePrintfString;
         }
         while(atof(theBuffer) != theValue && *thePrintfString != 0);
+
+        // Even the largest precision does not read back for numbers
+        // below about 1e-19: take the significant digits instead.
+        if (atof(theBuffer) != theValue)
+        {
+            const int   theSmallNumberLength = formatSmallNumber(theValue, theBuffer);
+
+            if (theSmallNumberLength != 0)
+            {
+                theCharsWritten = theSmallNumberLength;
+            }
+        }
 
         // First, cleanup the output to conform to the XPath standard,
         // which says no trailing '0's for the decimal portion.
